@@ -42,11 +42,17 @@ Pos == 0 .. npos - 1
 -----------------------------------------------------------------------------
 (* Matching *)
 
-\* a and b agree on every bit that is not set in the wildcard mask wc:
-\*   (a & ~wc) = (b & ~wc),   with  x & ~wc  =  x - (x & wc)
-MaskedEq(a, b, wc) == a - (a & wc) = b - (b & wc)
+\* a and b agree on every bit that is not set in the wildcard mask wc
+\* (explicit arithmetic, lowest bit first)
+RECURSIVE MaskedEq(_, _, _)
+MaskedEq(a, b, wc) ==
+    IF a = b THEN TRUE
+    ELSE (wc % 2 = 1 \/ a % 2 = b % 2) /\ MaskedEq(a \div 2, b \div 2, wc \div 2)
 
-\* the same thing bit by bit (used only to cross-check MaskedEq, see MC_Acl)
+\* two other formulations, used only to cross-check MaskedEq (ASSUME in MC_Acl):
+\* with the Bitwise module,  (a & ~wc) = (b & ~wc)  where  x & ~wc  =  x - (x & wc)
+MaskedEqAnd(a, b, wc) == a - (a & wc) = b - (b & wc)
+\* and bit by bit over a given width
 BitAt(x, k) == (x \div (2 ^ k)) % 2
 MaskedEqBits(a, b, wc, width) ==
     \A k \in 0 .. width - 1 : BitAt(wc, k) = 0 => BitAt(a, k) = BitAt(b, k)
